@@ -33,7 +33,10 @@ def merge_known():
         return
     a, b = json.loads(ours), json.loads(theirs)
     ids = {f["id"] for f in a["findings"]}
-    a["findings"] += [f for f in b["findings"] if f["id"] not in ids]
+    retired = set(a.get("retired_ids", [])) | set(b.get("retired_ids", []))
+    a["retired_ids"] = sorted(retired)
+    a["findings"] = [f for f in a["findings"] if f["id"] not in retired]
+    a["findings"] += [f for f in b["findings"] if f["id"] not in ids and f["id"] not in retired]
     a["fixed"] += [l for l in b["fixed"] if l not in a["fixed"]]
     json.dump(a, open(os.path.join(VERIF, p), "w"), indent=1)
     git("add", p)
